@@ -7,8 +7,8 @@ import (
 	"time"
 
 	eio "github.com/karagenc/socket.io-go/engine.io"
-	"github.com/karagenc/socket.io-go/internal/verifhook"
 	eioparser "github.com/karagenc/socket.io-go/engine.io/parser"
+	"github.com/karagenc/socket.io-go/internal/verifhook"
 )
 
 // Exported wrappers for the verification harness (build tag `verif`).
